@@ -198,127 +198,54 @@ def definition(name, params, ty, body, scope="Z"):
     return f"Definition {name} ({' '.join(params)} : {scope}) : {ty} :=\n  {body}.\n"
 
 
+SECTION_FILES = {"tiles": "ExprsTiles.v", "pointer": "ExprsPointer.v", "keys": "ExprsKeys.v", "requests": "ExprsRequests.v",
+                 "auth": "ExprsAuth.v", "time": "ExprsTime.v", "expectbox": "ExprsExpectBox.v", "encodings": "ExprsEncodings.v",
+                 "exit": "ExprsExit.v"}
+HEADER = ["(** GENERATED by gen/exprs.py from vncdotool/{rfb,client,command}.py - do not edit. *)",
+          "From Coq Require Import ZArith QArith List Bool.", "Import ListNotations.", "Open Scope Z_scope.", ""]
+
+
+class Sections:
+    """one output file per area, so that a fragment whose shape changed takes down only the obligations that rest on it"""
+
+    def __init__(self):
+        self.lines = {k: list(HEADER) for k in SECTION_FILES}
+        self.failed = {}
+        self.cur = None
+
+    def __call__(self, name):
+        self.cur = name
+        return self
+
+    def __enter__(self):
+        return self.lines[self.cur]
+
+    def __exit__(self, et, ev, tb):
+        if et is not None and issubclass(et, Exception):
+            self.failed.setdefault(self.cur, str(ev) if issubclass(et, GenError) else f"{et.__name__}: {ev}")
+            return True
+        return False
+
+    def finish(self):
+        d = os.path.dirname(OUT)
+        os.makedirs(d, exist_ok=True)
+        for k, fn in SECTION_FILES.items():
+            path = os.path.join(d, fn)
+            if k in self.failed:
+                new = "(* gen/exprs.py[%s] failed closed: %s *)\nDefinition translator_failed_closed : True := 0.\n" % (k, self.failed[k].replace("*)", "* )"))
+            else:
+                new = "\n".join(self.lines[k])
+            if not os.path.exists(path) or open(path).read() != new:
+                open(path, "w").write(new)
+        for k, msg in self.failed.items():
+            print(f"gen/exprs.py[{k}] -> Gen/{SECTION_FILES[k]}: {msg}", file=sys.stderr)
+        return 2 if self.failed else 0
+
+
 def main():
     rfb, client, command = parse("rfb.py"), parse("client.py"), parse("command.py")
-    out = ["(** GENERATED by gen/exprs.py from vncdotool/{rfb,client,command}.py - do not edit. *)",
-           "From Coq Require Import ZArith QArith List Bool.", "Import ListNotations.", "Open Scope Z_scope.", ""]
-
-    # ---- Hextile: tile size (RFBClient._handleDecodeHextile)
-    m = method(rfb, "RFBClient", "_handleDecodeHextile")
-    env = run_block(run_from(m.body, ["tw", "th"]), ident(["x", "y", "width", "height", "tx", "ty"]))
-    out.append(definition("gen_hextile_tile_size", ["x", "y", "width", "height", "tx", "ty"], "Z * Z", f"({env['tw']}, {env['th']})"))
-
-    # ---- Hextile: next tile and end test (RFBClient._doNextHextileSubrect)
-    m = method(rfb, "RFBClient", "_doNextHextileSubrect")
-    ifs = [s for s in m.body if isinstance(s, ast.If)]
-    if len(ifs) != 2 or ast.unparse(ifs[0].test) != "tx is not None":
-        raise GenError("_doNextHextileSubrect: expected `if tx is not None:` followed by the end test")
-    inputs = ident(["x", "y", "width", "height", "tx", "ty"])
-    e1 = run_block(ifs[0].body, inputs)
-    e0 = run_block(ifs[0].orelse, inputs)
-    out.append(definition("gen_hextile_next", ["x", "y", "width", "height", "tx", "ty"], "Z * Z", f"({e1['tx']}, {e1['ty']})"))
-    out.append(definition("gen_hextile_first", ["x", "y", "width", "height", "tx", "ty"], "Z * Z", f"({e0['tx']}, {e0['ty']})"))
-    out.append(definition("gen_hextile_done", ["x", "y", "width", "height", "tx", "ty"], "bool", bexpr(ifs[1].test, inputs)))
-    if not (len(ifs[1].body) == 1 and ast.unparse(ifs[1].body[0]) == "self._doConnection()"):
-        raise GenError("_doNextHextileSubrect: the end test no longer leads to _doConnection()")
-
-    # ---- Hextile: sub-rectangle geometry (both sub-rectangle handlers)
-    for hname, gname, with_colour in (("_handleDecodeHextileSubrectsFG", "fg", False), ("_handleDecodeHextileSubrectsColoured", "col", True)):
-        m = method(rfb, "RFBClient", hname)
-        loops = [s for s in m.body if isinstance(s, ast.While)]
-        if len(loops) != 1 or ast.unparse(loops[0].test) != "pos < end":
-            raise GenError(hname + ": expected one `while pos < end:` loop")
-        pre = run_block([s for s in m.body if isinstance(s, (ast.Assign, ast.AugAssign)) and m.body.index(s) < m.body.index(loops[0])
-                         and not (isinstance(s, ast.Assign) and ast.unparse(s.value) == "len(block)")],
-                        {"self.bypp": "bypp"}, opaque_subscripts=True)
-        body = loops[0].body
-        calls = [s for s in body if isinstance(s, ast.Expr) and isinstance(s.value, ast.Call) and ast.unparse(s.value.func) == "self.fillRectangle"]
-        if len(calls) != 1 or len(calls[0].value.args) != 5:
-            raise GenError(hname + ": expected exactly one self.fillRectangle(x, y, w, h, colour) per sub-rectangle")
-        k = body.index(calls[0])
-        inputs = {"tx": "tx", "ty": "ty", "self.bypp": "bypp", "pos": "pos", **{kk: vv for kk, vv in pre.items() if kk != "pos"}}
-        env = run_block(body[:k], inputs, opaque_subscripts=True)
-        a = [zexpr(x_, env) for x_ in calls[0].value.args[:4]]
-        out.append(definition(f"gen_hextile_sub_{gname}", ["tx", "ty", "xy", "wh"], "Z * Z * Z * Z", f"({a[0]}, {a[1]}, {a[2]}, {a[3]})"))
-        env2 = run_block(body[k + 1:], env, opaque_subscripts=True)
-        stride = env2["pos"]
-        out.append(definition(f"gen_hextile_sub_{gname}_stride", ["pos", "bypp"], "Z", stride))
-        # where the geometry bytes sit inside one sub-rectangle record
-        offs = []
-        for s in body[:k]:
-            if isinstance(s, ast.Assign) and isinstance(s.value, ast.Subscript) and isinstance(s.targets[0], ast.Name) and s.targets[0].id in ("xy", "wh"):
-                if isinstance(s.value.slice, ast.Slice):
-                    raise GenError(hname + ": geometry byte read as a slice")
-                offs.append(zexpr(s.value.slice, run_block(body[:body.index(s)], inputs, opaque_subscripts=True)))
-        if len(offs) != 2:
-            raise GenError(hname + ": expected xy = block[..] and wh = block[..]")
-        out.append(definition(f"gen_hextile_sub_{gname}_offsets", ["pos", "bypp"], "Z * Z", f"({offs[0]}, {offs[1]})"))
-
-    # ---- ZRLE: tile size and next tile (RFBClient._handleDecodeZRLEdata)
-    m = method(rfb, "RFBClient", "_handleDecodeZRLEdata")
-    loops = [s for s in m.body if isinstance(s, ast.For) and ast.unparse(s.target) == "subencoding"]
-    if len(loops) != 1:
-        raise GenError("_handleDecodeZRLEdata: expected one `for subencoding in it:` loop")
-    body = loops[0].body
-    inputs = ident(["x", "y", "width", "height", "tx", "ty"])
-    env = run_block(run_from(body, ["tw", "th"]), inputs)
-    out.append(definition("gen_zrle_tile_size", ["x", "y", "width", "height", "tx", "ty"], "Z * Z", f"({env['tw']}, {env['th']})"))
-    tail = []
-    for s in reversed(body):
-        if isinstance(s, (ast.Assign, ast.AugAssign, ast.If)) and arithmetic_only(s):
-            tail.insert(0, s)
-        else:
-            break
-    if not tail:
-        raise GenError("_handleDecodeZRLEdata: the tile loop does not end with the move to the next tile")
-    env = run_block(tail, inputs)
-    out.append(definition("gen_zrle_next", ["x", "y", "width", "height", "tx", "ty"], "Z * Z", f"({env['tx']}, {env['ty']})"))
-    pre = run_block([s for s in m.body[:m.body.index(loops[0])] if isinstance(s, ast.Assign) and isinstance(s.targets[0], ast.Name)
-                     and s.targets[0].id in ("tx", "ty")], ident(["x", "y"]))
-    out.append(definition("gen_zrle_first", ["x", "y"], "Z * Z", f"({pre['tx']}, {pre['ty']})"))
-
-    # ---- mouseDrag (VNCDoToolClient.mouseDrag): the attributes self.x / self.y are the inputs cx / cy
-    m = method(client, "VNCDoToolClient", "mouseDrag")
-    loops = [s for s in m.body if isinstance(s, ast.For)]
-    if len(loops) != 1 or not isinstance(loops[0].target, ast.Name):
-        raise GenError("mouseDrag: expected one for-loop over the steps")
-    lp = loops[0]
-    k = m.body.index(lp)
-    inputs = {"x": "x", "y": "y", "step": "step", "self.x": "cx", "self.y": "cy"}
-    env = run_block(m.body[:k], inputs)
-    it = lp.iter
-    if not (isinstance(it, ast.Call) and isinstance(it.func, ast.Name) and it.func.id == "range" and len(it.args) == 3):
-        raise GenError("mouseDrag: expected range(start, stop, step)")
-    r = [zexpr(a_, env) for a_ in it.args]
-    params = ["cx", "cy", "x", "y", "step"]
-    out.append(definition("gen_drag_range", params, "Z * Z * Z", f"({r[0]}, {r[1]}, {r[2]})"))
-
-    def move_args(st):
-        if (isinstance(st, ast.Expr) and isinstance(st.value, ast.Call) and ast.unparse(st.value.func) == "self.mouseMove"
-                and len(st.value.args) == 2 and not st.value.keywords):
-            return st.value.args
-        return None
-    if len(lp.body) != 2 or move_args(lp.body[0]) is None:
-        raise GenError("mouseDrag: the loop body is no longer `self.mouseMove(..); yield self.pause(..)`")
-    pz = lp.body[1]
-    if not (isinstance(pz, ast.Expr) and isinstance(pz.value, ast.Yield) and isinstance(pz.value.value, ast.Call)
-            and ast.unparse(pz.value.value.func) == "self.pause" and len(pz.value.value.args) == 1
-            and isinstance(pz.value.value.args[0], ast.Constant)):
-        raise GenError("mouseDrag: the loop body is no longer `self.mouseMove(..); yield self.pause(<constant>)`")
-    inner = dict(env)
-    inner[lp.target.id] = "s"
-    mv = [zexpr(a_, inner) for a_ in move_args(lp.body[0])]
-    out.append(definition("gen_drag_move", params + ["s"], "Z * Z", f"({mv[0]}, {mv[1]})"))
-    rest = [s for s in m.body[k + 1:] if not is_log_call(s)]
-    if len(rest) != 2 or move_args(rest[0]) is None or ast.unparse(rest[1]) != "returnValue(self)":
-        raise GenError("mouseDrag: after the loop expected `self.mouseMove(x, y); returnValue(self)`")
-    last = [zexpr(a_, env) for a_ in move_args(rest[0])]
-    out.append(definition("gen_drag_last", params, "Z * Z", f"({last[0]}, {last[1]})"))
+    S = Sections()
     from fractions import Fraction
-    q = Fraction(str(pz.value.value.args[0].value))
-    out.append(f"Definition gen_drag_pause : Q := ({q.numerator} # {q.denominator})%Q.\n")
-
-    # ---- pointer operations (VNCDoToolClient.mouseMove / mouseDown / mouseUp): attributes x, y, buttons are cx, cy, cb
     def shift_guards(stmts):
         """counts of << and >> with a non-constant right operand: Python raises ValueError when one is negative"""
         gs = []
@@ -329,133 +256,6 @@ def main():
                 if not isinstance(right, ast.Constant):
                     gs.append(right)
         return gs
-    for name, ps in (("mouseMove", ["x", "y"]), ("mouseDown", ["button"]), ("mouseUp", ["button"])):
-        m = method(client, "VNCDoToolClient", name)
-        body = [s_ for s_ in m.body if not is_log_call(s_) and not (isinstance(s_, ast.Expr) and isinstance(s_.value, ast.Constant))]
-        if len(body) < 2 or ast.unparse(body[-1]) != "return self":
-            raise GenError(name + ": expected ...; return self")
-        evs = [s_ for s_ in body if isinstance(s_, ast.Expr) and isinstance(s_.value, ast.Call) and ast.unparse(s_.value.func) == "self.pointerEvent"]
-        if len(evs) != 1:
-            raise GenError(name + ": expected exactly one self.pointerEvent(...)")
-        ev = evs[0]
-        k_ = body.index(ev)
-        before, after = body[:k_], body[k_ + 1:-1]
-        inputs = {"self.x": "cx", "self.y": "cy", "self.buttons": "cb", **{p_: p_ for p_ in ps}}
-        env = run_block(before, inputs)
-        args = list(ev.value.args) + [None] * (3 - len(ev.value.args))
-        for kw in ev.value.keywords:
-            if kw.arg != "buttonmask" or args[2] is not None:
-                raise GenError(name + ": unexpected keyword in pointerEvent")
-            args[2] = kw.value
-        if any(a_ is None for a_ in args) or len(args) != 3:
-            raise GenError(name + ": pointerEvent needs x, y and the button mask")
-        evt = [zexpr(a_, env) for a_ in args]
-        # does any statement before the event assign an attribute?  (then a raising pointerEvent leaves it changed)
-        early = any(target_key(t_) is not None and target_key(t_).startswith("self.")
-                    for s_ in before for n_ in ast.walk(s_) if isinstance(n_, (ast.Assign, ast.AugAssign))
-                    for t_ in ([n_.target] if isinstance(n_, ast.AugAssign) else [e_ for tt in n_.targets for e_ in (tt.elts if isinstance(tt, ast.Tuple) else [tt])]))
-        env = run_block(after, env)
-        gs = [f"(0 <=? {zexpr(g_, inputs)})" for g_ in shift_guards(before + after)]
-        allp = ["cx", "cy", "cb"] + ps
-        out.append(definition("gen_" + name, allp, "(Z * Z * Z) * (Z * Z * Z)",
-                              f"(({env['self.x']}, {env['self.y']}, {env['self.buttons']}), ({evt[0]}, {evt[1]}, {evt[2]}))"))
-        out.append(definition("gen_" + name + "_defined", allp, "bool", " && ".join(gs) if gs else "true"))
-        out.append(f"Definition gen_{name}_commits_after_event : bool := {'false' if early else 'true'}.\n")
-    m = method(client, "VNCDoToolClient", "mousePress")
-    body = [ast.unparse(s_) for s_ in m.body if not is_log_call(s_) and not (isinstance(s_, ast.Expr) and isinstance(s_.value, ast.Constant))]
-    if body != ["self.mouseDown(button)", "self.mouseUp(button)", "return self"]:
-        raise GenError("mousePress is no longer mouseDown(button); mouseUp(button)")
-
-    # ---- key operations: which passes over the decoded keys, in which direction, with which down-flag
-    rows = []
-    for name in ("keyPress", "keyDown", "keyUp"):
-        m = method(client, "VNCDoToolClient", name)
-        body = [s_ for s_ in m.body if not is_log_call(s_) and not (isinstance(s_, ast.Expr) and isinstance(s_.value, ast.Constant))]
-        if len(body) < 3 or ast.unparse(body[0]) != "keys = self._decodeKey(key)" or ast.unparse(body[-1]) != "return self":
-            raise GenError(name + ": expected keys = self._decodeKey(key); loops; return self")
-        passes = []
-        for lp_ in body[1:-1]:
-            if not (isinstance(lp_, ast.For) and isinstance(lp_.target, ast.Name) and len(lp_.body) == 1 and not lp_.orelse):
-                raise GenError(name + ": expected for-loops over the keys only")
-            it_ = ast.unparse(lp_.iter)
-            if it_ not in ("keys", "reversed(keys)"):
-                raise GenError(name + ": loop over " + it_)
-            c_ = lp_.body[0]
-            if not (isinstance(c_, ast.Expr) and isinstance(c_.value, ast.Call) and ast.unparse(c_.value.func) == "self.keyEvent"
-                    and len(c_.value.args) == 1 and ast.unparse(c_.value.args[0]) == lp_.target.id and len(c_.value.keywords) == 1
-                    and c_.value.keywords[0].arg == "down" and isinstance(c_.value.keywords[0].value, ast.Constant)
-                    and isinstance(c_.value.keywords[0].value.value, bool)):
-                raise GenError(name + ": loop body is not self.keyEvent(k, down=<constant>)")
-            passes.append((it_ != "keys", c_.value.keywords[0].value.value))
-        rows.append((name, passes))
-    out.append("(* per key operation: the passes over the decoded keys as (reversed?, down-flag) *)")
-    for name, passes in rows:
-        out.append(f"Definition gen_{name}_passes : list (bool * bool) := ["
-                   + "; ".join(f"({str(r_).lower()}, {str(d_).lower()})" for r_, d_ in passes) + "].\n")
-
-    # ---- framebufferUpdateRequest (RFBClient): defaults of width / height, order of the packed fields
-    m = method(rfb, "RFBClient", "framebufferUpdateRequest")
-    if [a_.arg for a_ in m.args.args] != ["self", "x", "y", "width", "height", "incremental"]:
-        raise GenError("framebufferUpdateRequest: parameters changed")
-    dflt = [ast.unparse(d_) for d_ in m.args.defaults]
-    if dflt != ["0", "0", "None", "None", "False"]:
-        raise GenError("framebufferUpdateRequest: defaults changed: " + str(dflt))
-    body = [s_ for s_ in m.body if not (isinstance(s_, ast.Expr) and isinstance(s_.value, ast.Constant))]
-    env = {"x": "x", "y": "y", "incremental": "incremental", "self.width": "cw", "self.height": "ch"}
-    opt = {"width": "width", "height": "height"}
-    for st in body[:-1]:
-        if not (isinstance(st, ast.If) and isinstance(st.test, ast.Compare) and len(st.test.ops) == 1 and isinstance(st.test.ops[0], ast.Is)
-                and isinstance(st.test.left, ast.Name) and st.test.left.id in opt and ast.unparse(st.test.comparators[0]) == "None"
-                and len(st.body) == 1 and not st.orelse and isinstance(st.body[0], ast.Assign)
-                and ast.unparse(st.body[0].targets[0]) == st.test.left.id):
-            raise GenError("framebufferUpdateRequest: expected `if <arg> is None: <arg> = ...` statements")
-        nm = st.test.left.id
-        env[nm] = f"(match {opt.pop(nm)} with Some v => v | None => {zexpr(st.body[0].value, env)} end)"
-    if opt:
-        raise GenError("framebufferUpdateRequest: no default computed for " + ", ".join(opt))
-    wr = body[-1]
-    if not (isinstance(wr, ast.Expr) and isinstance(wr.value, ast.Call) and ast.unparse(wr.value.func) == "self.transport.write"
-            and len(wr.value.args) == 1 and isinstance(wr.value.args[0], ast.Call) and ast.unparse(wr.value.args[0].func) == "pack"):
-        raise GenError("framebufferUpdateRequest: expected self.transport.write(pack(...)) last")
-    pk = wr.value.args[0].args
-    if not (isinstance(pk[0], ast.Constant) and pk[0].value == "!BBHHHH" and len(pk) == 7):
-        raise GenError("framebufferUpdateRequest: the message is no longer pack('!BBHHHH', 3, incremental, x, y, width, height)")
-    flds = [zexpr(a_, env) for a_ in pk[1:]]
-    out.append("Definition gen_fbur_fields (cw ch x y : Z) (width height : option Z) (incremental : Z) : list Z :=\n  ["
-               + "; ".join(flds) + "].\n")
-
-    # ---- the VNC-authentication key (rfb._vnc_des)
-    m = function(rfb, "_vnc_des")
-    stm = [s for s in m.body if not (isinstance(s, ast.Expr) and isinstance(s.value, ast.Constant))]
-    if len(stm) != 4 or ast.unparse(stm[3]) != "return key":
-        raise GenError("_vnc_des: expected pad, encode, reverse, return")
-    pad = stm[0]
-    if not (isinstance(pad, ast.Assign) and isinstance(pad.value, ast.JoinedStr) and len(pad.value.values) == 1
-            and isinstance(pad.value.values[0], ast.FormattedValue) and ast.unparse(pad.value.values[0].value) == "password"
-            and pad.value.values[0].conversion == -1 and isinstance(pad.value.values[0].format_spec, ast.JoinedStr)
-            and len(pad.value.values[0].format_spec.values) == 1 and isinstance(pad.value.values[0].format_spec.values[0], ast.Constant)):
-        raise GenError("_vnc_des: the padding is no longer one format specification applied to the password")
-    spec = pad.value.values[0].format_spec.values[0].value
-    # [[fill]align][width][.precision]
-    if len(spec) < 4 or spec[1] != "<" or "." not in spec:
-        raise GenError(f"_vnc_des: unsupported format specification {spec!r}")
-    width, prec = spec[2:].split(".")
-    out.append(f"Definition gen_key_fill : Z := {ord(spec[0])}.\nDefinition gen_key_width : nat := {int(width)}%nat.\n"
-               f"Definition gen_key_precision : nat := {int(prec)}%nat.\n")
-    enc = stm[1]
-    if not (isinstance(enc, ast.Assign) and isinstance(enc.value, ast.Call) and ast.unparse(enc.value.func) == "pw.encode"
-            and len(enc.value.args) == 1 and isinstance(enc.value.args[0], ast.Constant) and str(enc.value.args[0].value).upper() == "ASCII"):
-        raise GenError("_vnc_des: the key is no longer the ASCII encoding of the padded password")
-    rev = stm[2]
-    if not (isinstance(rev, ast.Assign) and isinstance(rev.value, ast.Call) and ast.unparse(rev.value.func) == "bytes"
-            and len(rev.value.args) == 1 and isinstance(rev.value.args[0], ast.GeneratorExp)):
-        raise GenError("_vnc_des: expected bytes(<expression> for k in key)")
-    g = rev.value.args[0]
-    if len(g.generators) != 1 or g.generators[0].ifs or ast.unparse(g.generators[0].iter) != "key" or not isinstance(g.generators[0].target, ast.Name):
-        raise GenError("_vnc_des: expected one `for k in key`")
-    out.append(definition("gen_key_byte", ["k"], "Z", zexpr(g.elt, {g.generators[0].target.id: "k"})))
-
-    # ---- time arithmetic of the command line (command.build_command_list, command.vncdo), over Q
     def qexpr(e, env):
         if isinstance(e, ast.Constant) and isinstance(e.value, (int, float)) and not isinstance(e.value, bool):
             f = Fraction(str(e.value))
@@ -472,156 +272,422 @@ def main():
             op = {ast.Add: "+", ast.Sub: "-", ast.Mult: "*", ast.Div: "/"}[type(e.op)]
             return f"({qexpr(e.left, env)} {op} {qexpr(e.right, env)})"
         raise GenError("unsupported time expression: " + ast.unparse(e))
-    fn = function(command, "build_command_list")
-    stores = [n for n in ast.walk(fn) if isinstance(n, (ast.Assign, ast.AugAssign, ast.AnnAssign, ast.NamedExpr))
-              for t in (n.targets if isinstance(n, ast.Assign) else [n.target]) for nm in ast.walk(t)
-              if isinstance(nm, ast.Name) and nm.id in ("warp", "delay")]
-    if len(stores) != 1 or ast.unparse(stores[0]) != "delay = float(delay) / 1000.0":
-        raise GenError("build_command_list: warp / delay are reassigned: " + "; ".join(ast.unparse(s) for s in stores))
-    out.append("Definition gen_delay_seconds (delay : Q) : Q :=\n  " + qexpr(stores[0].value, {"delay": "delay"}) + "%Q.\n")
-    durs = [n for n in ast.walk(fn) if isinstance(n, ast.Assign) and len(n.targets) == 1 and ast.unparse(n.targets[0]) == "duration"]
-    if len(durs) != 1:
-        raise GenError("build_command_list: expected one assignment to duration")
-    uses = [n for n in ast.walk(fn) if isinstance(n, ast.Call) and ast.unparse(n.func) == "factory.deferred.addCallback"
-            and n.args and ast.unparse(n.args[0]) == "client.pause"]
-    shapes = sorted(set(ast.unparse(n.args[1]) for n in uses if len(n.args) == 2))
-    if shapes != ["delay", "duration"] or any(len(n.args) != 2 for n in uses):
-        raise GenError(f"build_command_list: client.pause is registered with {shapes}")
-    out.append("Definition gen_pause_duration (arg warp : Q) : Q :=\n  " + qexpr(durs[0].value, {"<arg>": "arg", "warp": "warp"}) + "%Q.\n")
-    fn = function(command, "vncdo")
-    later = [n for n in ast.walk(fn) if isinstance(n, ast.Call) and ast.unparse(n.func) == "reactor.callLater"]
-    if len(later) != 1 or len(later[0].args) != 3 or ast.unparse(later[0].args[1]) != "factory.error":
-        raise GenError("vncdo: expected one reactor.callLater(<delay>, factory.error, failure)")
-    out.append("Definition gen_timeout_delay (timeout warp : Q) : Q :=\n  "
-               + qexpr(later[0].args[0], {"options.timeout": "timeout", "options.warp": "warp"}) + "%Q.\n")
 
-    # ---- the boxes handed on by the region operations (VNCDoToolClient.captureRegion, _expectFramebuffer, expectScreen)
-    m = method(client, "VNCDoToolClient", "captureRegion")
-    body = [s_ for s_ in m.body if not is_log_call(s_) and not (isinstance(s_, ast.Expr) and isinstance(s_.value, ast.Constant))]
-    if not (len(body) == 1 and isinstance(body[0], ast.Return) and isinstance(body[0].value, ast.Call)
-            and ast.unparse(body[0].value.func) == "self._capture" and len(body[0].value.args) == 6
-            and [ast.unparse(a_) for a_ in body[0].value.args[:2]] == ["fp", "incremental"] and not body[0].value.keywords):
-        raise GenError("captureRegion is no longer `return self._capture(fp, incremental, <box>)`")
-    bx = [zexpr(a_, ident(["x", "y", "w", "h"])) for a_ in body[0].value.args[2:]]
-    out.append(definition("gen_capture_region_box", ["x", "y", "w", "h"], "Z * Z * Z * Z", f"({bx[0]}, {bx[1]}, {bx[2]}, {bx[3]})"))
-    m = method(client, "VNCDoToolClient", "_expectFramebuffer")
-    body = [s_ for s_ in m.body if not is_log_call(s_) and not (isinstance(s_, ast.Expr) and isinstance(s_.value, ast.Constant))]
-    if [ast.unparse(s_) for s_ in body[:3]] != ["image = Image.open(filename)", "w, h = image.size", "self.expected = image.histogram()"]:
-        raise GenError("_expectFramebuffer no longer opens the file, takes its size and its histogram: " + "; ".join(ast.unparse(s_) for s_ in body[:3]))
-    r_ = body[3] if len(body) == 4 else None
-    if not (isinstance(r_, ast.Return) and isinstance(r_.value, ast.Call) and ast.unparse(r_.value.func) == "self._expectCompare"
-            and len(r_.value.args) == 3 and ast.unparse(r_.value.args[0]) == "None" and isinstance(r_.value.args[1], ast.Tuple)
-            and len(r_.value.args[1].elts) == 4 and ast.unparse(r_.value.args[2]) == "maxrms"):
-        raise GenError("_expectFramebuffer no longer ends with `return self._expectCompare(None, <box>, maxrms)`")
-    bx = [zexpr(a_, ident(["x", "y", "w", "h"])) for a_ in r_.value.args[1].elts]
-    out.append(definition("gen_expect_box", ["x", "y", "w", "h"], "Z * Z * Z * Z", f"({bx[0]}, {bx[1]}, {bx[2]}, {bx[3]})"))
-    for nm, want in (("expectScreen", "return self._expectFramebuffer(filename, 0, 0, maxrms)"), ("expectRegion", "return self._expectFramebuffer(filename, x, y, maxrms)")):
-        m = method(client, "VNCDoToolClient", nm)
+    with S("tiles") as out:
+        # ---- Hextile: tile size (RFBClient._handleDecodeHextile)
+        m = method(rfb, "RFBClient", "_handleDecodeHextile")
+        env = run_block(run_from(m.body, ["tw", "th"]), ident(["x", "y", "width", "height", "tx", "ty"]))
+        out.append(definition("gen_hextile_tile_size", ["x", "y", "width", "height", "tx", "ty"], "Z * Z", f"({env['tw']}, {env['th']})"))
+
+
+    with S("tiles") as out:
+        # ---- Hextile: next tile and end test (RFBClient._doNextHextileSubrect)
+        m = method(rfb, "RFBClient", "_doNextHextileSubrect")
+        ifs = [s for s in m.body if isinstance(s, ast.If)]
+        if len(ifs) != 2 or ast.unparse(ifs[0].test) != "tx is not None":
+            raise GenError("_doNextHextileSubrect: expected `if tx is not None:` followed by the end test")
+        inputs = ident(["x", "y", "width", "height", "tx", "ty"])
+        e1 = run_block(ifs[0].body, inputs)
+        e0 = run_block(ifs[0].orelse, inputs)
+        out.append(definition("gen_hextile_next", ["x", "y", "width", "height", "tx", "ty"], "Z * Z", f"({e1['tx']}, {e1['ty']})"))
+        out.append(definition("gen_hextile_first", ["x", "y", "width", "height", "tx", "ty"], "Z * Z", f"({e0['tx']}, {e0['ty']})"))
+        out.append(definition("gen_hextile_done", ["x", "y", "width", "height", "tx", "ty"], "bool", bexpr(ifs[1].test, inputs)))
+        if not (len(ifs[1].body) == 1 and ast.unparse(ifs[1].body[0]) == "self._doConnection()"):
+            raise GenError("_doNextHextileSubrect: the end test no longer leads to _doConnection()")
+
+
+    with S("tiles") as out:
+        # ---- Hextile: sub-rectangle geometry (both sub-rectangle handlers)
+        for hname, gname, with_colour in (("_handleDecodeHextileSubrectsFG", "fg", False), ("_handleDecodeHextileSubrectsColoured", "col", True)):
+            m = method(rfb, "RFBClient", hname)
+            loops = [s for s in m.body if isinstance(s, ast.While)]
+            if len(loops) != 1 or ast.unparse(loops[0].test) != "pos < end":
+                raise GenError(hname + ": expected one `while pos < end:` loop")
+            pre = run_block([s for s in m.body if isinstance(s, (ast.Assign, ast.AugAssign)) and m.body.index(s) < m.body.index(loops[0])
+                             and not (isinstance(s, ast.Assign) and ast.unparse(s.value) == "len(block)")],
+                            {"self.bypp": "bypp"}, opaque_subscripts=True)
+            body = loops[0].body
+            calls = [s for s in body if isinstance(s, ast.Expr) and isinstance(s.value, ast.Call) and ast.unparse(s.value.func) == "self.fillRectangle"]
+            if len(calls) != 1 or len(calls[0].value.args) != 5:
+                raise GenError(hname + ": expected exactly one self.fillRectangle(x, y, w, h, colour) per sub-rectangle")
+            k = body.index(calls[0])
+            inputs = {"tx": "tx", "ty": "ty", "self.bypp": "bypp", "pos": "pos", **{kk: vv for kk, vv in pre.items() if kk != "pos"}}
+            env = run_block(body[:k], inputs, opaque_subscripts=True)
+            a = [zexpr(x_, env) for x_ in calls[0].value.args[:4]]
+            out.append(definition(f"gen_hextile_sub_{gname}", ["tx", "ty", "xy", "wh"], "Z * Z * Z * Z", f"({a[0]}, {a[1]}, {a[2]}, {a[3]})"))
+            env2 = run_block(body[k + 1:], env, opaque_subscripts=True)
+            stride = env2["pos"]
+            out.append(definition(f"gen_hextile_sub_{gname}_stride", ["pos", "bypp"], "Z", stride))
+            # where the geometry bytes sit inside one sub-rectangle record
+            offs = []
+            for s in body[:k]:
+                if isinstance(s, ast.Assign) and isinstance(s.value, ast.Subscript) and isinstance(s.targets[0], ast.Name) and s.targets[0].id in ("xy", "wh"):
+                    if isinstance(s.value.slice, ast.Slice):
+                        raise GenError(hname + ": geometry byte read as a slice")
+                    offs.append(zexpr(s.value.slice, run_block(body[:body.index(s)], inputs, opaque_subscripts=True)))
+            if len(offs) != 2:
+                raise GenError(hname + ": expected xy = block[..] and wh = block[..]")
+            out.append(definition(f"gen_hextile_sub_{gname}_offsets", ["pos", "bypp"], "Z * Z", f"({offs[0]}, {offs[1]})"))
+
+
+    with S("tiles") as out:
+        # ---- ZRLE: tile size and next tile (RFBClient._handleDecodeZRLEdata)
+        m = method(rfb, "RFBClient", "_handleDecodeZRLEdata")
+        loops = [s for s in m.body if isinstance(s, ast.For) and ast.unparse(s.target) == "subencoding"]
+        if len(loops) != 1:
+            raise GenError("_handleDecodeZRLEdata: expected one `for subencoding in it:` loop")
+        body = loops[0].body
+        inputs = ident(["x", "y", "width", "height", "tx", "ty"])
+        env = run_block(run_from(body, ["tw", "th"]), inputs)
+        out.append(definition("gen_zrle_tile_size", ["x", "y", "width", "height", "tx", "ty"], "Z * Z", f"({env['tw']}, {env['th']})"))
+        tail = []
+        for s in reversed(body):
+            if isinstance(s, (ast.Assign, ast.AugAssign, ast.If)) and arithmetic_only(s):
+                tail.insert(0, s)
+            else:
+                break
+        if not tail:
+            raise GenError("_handleDecodeZRLEdata: the tile loop does not end with the move to the next tile")
+        env = run_block(tail, inputs)
+        out.append(definition("gen_zrle_next", ["x", "y", "width", "height", "tx", "ty"], "Z * Z", f"({env['tx']}, {env['ty']})"))
+        pre = run_block([s for s in m.body[:m.body.index(loops[0])] if isinstance(s, ast.Assign) and isinstance(s.targets[0], ast.Name)
+                         and s.targets[0].id in ("tx", "ty")], ident(["x", "y"]))
+        out.append(definition("gen_zrle_first", ["x", "y"], "Z * Z", f"({pre['tx']}, {pre['ty']})"))
+
+
+    with S("pointer") as out:
+        # ---- mouseDrag (VNCDoToolClient.mouseDrag): the attributes self.x / self.y are the inputs cx / cy
+        m = method(client, "VNCDoToolClient", "mouseDrag")
+        loops = [s for s in m.body if isinstance(s, ast.For)]
+        if len(loops) != 1 or not isinstance(loops[0].target, ast.Name):
+            raise GenError("mouseDrag: expected one for-loop over the steps")
+        lp = loops[0]
+        k = m.body.index(lp)
+        inputs = {"x": "x", "y": "y", "step": "step", "self.x": "cx", "self.y": "cy"}
+        env = run_block(m.body[:k], inputs)
+        it = lp.iter
+        if not (isinstance(it, ast.Call) and isinstance(it.func, ast.Name) and it.func.id == "range" and len(it.args) == 3):
+            raise GenError("mouseDrag: expected range(start, stop, step)")
+        r = [zexpr(a_, env) for a_ in it.args]
+        params = ["cx", "cy", "x", "y", "step"]
+        out.append(definition("gen_drag_range", params, "Z * Z * Z", f"({r[0]}, {r[1]}, {r[2]})"))
+
+        def move_args(st):
+            if (isinstance(st, ast.Expr) and isinstance(st.value, ast.Call) and ast.unparse(st.value.func) == "self.mouseMove"
+                    and len(st.value.args) == 2 and not st.value.keywords):
+                return st.value.args
+            return None
+        if len(lp.body) != 2 or move_args(lp.body[0]) is None:
+            raise GenError("mouseDrag: the loop body is no longer `self.mouseMove(..); yield self.pause(..)`")
+        pz = lp.body[1]
+        if not (isinstance(pz, ast.Expr) and isinstance(pz.value, ast.Yield) and isinstance(pz.value.value, ast.Call)
+                and ast.unparse(pz.value.value.func) == "self.pause" and len(pz.value.value.args) == 1
+                and isinstance(pz.value.value.args[0], ast.Constant)):
+            raise GenError("mouseDrag: the loop body is no longer `self.mouseMove(..); yield self.pause(<constant>)`")
+        inner = dict(env)
+        inner[lp.target.id] = "s"
+        mv = [zexpr(a_, inner) for a_ in move_args(lp.body[0])]
+        out.append(definition("gen_drag_move", params + ["s"], "Z * Z", f"({mv[0]}, {mv[1]})"))
+        rest = [s for s in m.body[k + 1:] if not is_log_call(s)]
+        if len(rest) != 2 or move_args(rest[0]) is None or ast.unparse(rest[1]) != "returnValue(self)":
+            raise GenError("mouseDrag: after the loop expected `self.mouseMove(x, y); returnValue(self)`")
+        last = [zexpr(a_, env) for a_ in move_args(rest[0])]
+        out.append(definition("gen_drag_last", params, "Z * Z", f"({last[0]}, {last[1]})"))
+        q = Fraction(str(pz.value.value.args[0].value))
+        out.append(f"Definition gen_drag_pause : Q := ({q.numerator} # {q.denominator})%Q.\n")
+
+
+    with S("pointer") as out:
+        # ---- pointer operations (VNCDoToolClient.mouseMove / mouseDown / mouseUp): attributes x, y, buttons are cx, cy, cb
+        for name, ps in (("mouseMove", ["x", "y"]), ("mouseDown", ["button"]), ("mouseUp", ["button"])):
+            m = method(client, "VNCDoToolClient", name)
+            body = [s_ for s_ in m.body if not is_log_call(s_) and not (isinstance(s_, ast.Expr) and isinstance(s_.value, ast.Constant))]
+            if len(body) < 2 or ast.unparse(body[-1]) != "return self":
+                raise GenError(name + ": expected ...; return self")
+            evs = [s_ for s_ in body if isinstance(s_, ast.Expr) and isinstance(s_.value, ast.Call) and ast.unparse(s_.value.func) == "self.pointerEvent"]
+            if len(evs) != 1:
+                raise GenError(name + ": expected exactly one self.pointerEvent(...)")
+            ev = evs[0]
+            k_ = body.index(ev)
+            before, after = body[:k_], body[k_ + 1:-1]
+            inputs = {"self.x": "cx", "self.y": "cy", "self.buttons": "cb", **{p_: p_ for p_ in ps}}
+            env = run_block(before, inputs)
+            args = list(ev.value.args) + [None] * (3 - len(ev.value.args))
+            for kw in ev.value.keywords:
+                if kw.arg != "buttonmask" or args[2] is not None:
+                    raise GenError(name + ": unexpected keyword in pointerEvent")
+                args[2] = kw.value
+            if any(a_ is None for a_ in args) or len(args) != 3:
+                raise GenError(name + ": pointerEvent needs x, y and the button mask")
+            evt = [zexpr(a_, env) for a_ in args]
+            # does any statement before the event assign an attribute?  (then a raising pointerEvent leaves it changed)
+            early = any(target_key(t_) is not None and target_key(t_).startswith("self.")
+                        for s_ in before for n_ in ast.walk(s_) if isinstance(n_, (ast.Assign, ast.AugAssign))
+                        for t_ in ([n_.target] if isinstance(n_, ast.AugAssign) else [e_ for tt in n_.targets for e_ in (tt.elts if isinstance(tt, ast.Tuple) else [tt])]))
+            env = run_block(after, env)
+            gs = [f"(0 <=? {zexpr(g_, inputs)})" for g_ in shift_guards(before + after)]
+            allp = ["cx", "cy", "cb"] + ps
+            out.append(definition("gen_" + name, allp, "(Z * Z * Z) * (Z * Z * Z)",
+                                  f"(({env['self.x']}, {env['self.y']}, {env['self.buttons']}), ({evt[0]}, {evt[1]}, {evt[2]}))"))
+            out.append(definition("gen_" + name + "_defined", allp, "bool", " && ".join(gs) if gs else "true"))
+            out.append(f"Definition gen_{name}_commits_after_event : bool := {'false' if early else 'true'}.\n")
+        m = method(client, "VNCDoToolClient", "mousePress")
         body = [ast.unparse(s_) for s_ in m.body if not is_log_call(s_) and not (isinstance(s_, ast.Expr) and isinstance(s_.value, ast.Constant))]
-        if body != [want]:
-            raise GenError(f"{nm} is no longer `{want}`")
+        if body != ["self.mouseDown(button)", "self.mouseUp(button)", "return self"]:
+            raise GenError("mousePress is no longer mouseDown(button); mouseUp(button)")
 
-    # ---- the encodings the client advertises (VNCDoToolClient.vncConnectionMade): a list built by conditional appends
-    m = method(client, "VNCDoToolClient", "vncConnectionMade")
-    body = [s_ for s_ in m.body if not is_log_call(s_) and not (isinstance(s_, ast.Expr) and isinstance(s_.value, ast.Constant))]
-    flags = {"self.factory.pseudocursor": "pseudocursor", "self.factory.nocursor": "nocursor", "self.factory.pseudodesktop": "pseudodesktop",
-             "self.factory.last_rect": "last_rect", "self.factory.qemu_extended_key": "qemu"}
-    encname = {"rfb.Encoding.PSEUDO_CURSOR": "ENC_PSEUDO_CURSOR", "rfb.Encoding.PSEUDO_DESKTOP_SIZE": "ENC_PSEUDO_DESKTOP_SIZE",
-               "rfb.Encoding.PSEUDO_LAST_RECT": "ENC_PSEUDO_LAST_RECT",
-               "rfb.Encoding.PSEUDO_QEMU_EXTENDED_KEY_EVENT": "ENC_PSEUDO_QEMU_EXTENDED_KEY_EVENT"}
 
-    def fcond(e):
-        if isinstance(e, ast.BoolOp):
-            return "(" + (" || " if isinstance(e.op, ast.Or) else " && ").join(fcond(v) for v in e.values) + ")"
-        if isinstance(e, ast.UnaryOp) and isinstance(e.op, ast.Not):
-            return f"(negb {fcond(e.operand)})"
-        if ast.unparse(e) in flags:
-            return flags[ast.unparse(e)]
-        raise GenError("vncConnectionMade: unsupported condition " + ast.unparse(e))
-    if ast.unparse(body[0]) != "self.setImageMode()":
-        raise GenError("vncConnectionMade no longer begins with self.setImageMode()")
-    if ast.unparse(body[1]) != "encodings = [self.encoding]":
-        raise GenError("vncConnectionMade: the list no longer starts as [self.encoding]")
-    term = "[encoding]"
-    k_ = 2
-    while k_ < len(body) and isinstance(body[k_], ast.If):
-        st = body[k_]
-        if not (len(st.body) == 1 and not st.orelse and isinstance(st.body[0], ast.Expr) and isinstance(st.body[0].value, ast.Call)
-                and ast.unparse(st.body[0].value.func) == "encodings.append" and ast.unparse(st.body[0].value.args[0]) in encname):
-            raise GenError("vncConnectionMade: unsupported step " + ast.unparse(st)[:70])
-        term = f"({term} ++ (if {fcond(st.test)} then [{encname[ast.unparse(st.body[0].value.args[0])]}] else []))"
-        k_ += 1
-    if [ast.unparse(s_) for s_ in body[k_:]] != ["self.setEncodings(encodings)", "self.factory.clientConnectionMade(self)"]:
-        raise GenError("vncConnectionMade no longer ends with setEncodings(encodings); clientConnectionMade(self): "
-                       + "; ".join(ast.unparse(s_) for s_ in body[k_:]))
-    out.append("From VD Require Import Gen.Tables.\n")
-    out.append("Definition gen_encodings (encoding : Z) (pseudocursor nocursor pseudodesktop last_rect qemu : bool) : list Z :=\n  " + term + ".\n")
+    with S("keys") as out:
+        # ---- key operations: which passes over the decoded keys, in which direction, with which down-flag
+        rows = []
+        for name in ("keyPress", "keyDown", "keyUp"):
+            m = method(client, "VNCDoToolClient", name)
+            body = [s_ for s_ in m.body if not is_log_call(s_) and not (isinstance(s_, ast.Expr) and isinstance(s_.value, ast.Constant))]
+            if len(body) < 3 or ast.unparse(body[0]) != "keys = self._decodeKey(key)" or ast.unparse(body[-1]) != "return self":
+                raise GenError(name + ": expected keys = self._decodeKey(key); loops; return self")
+            passes = []
+            for lp_ in body[1:-1]:
+                if not (isinstance(lp_, ast.For) and isinstance(lp_.target, ast.Name) and len(lp_.body) == 1 and not lp_.orelse):
+                    raise GenError(name + ": expected for-loops over the keys only")
+                it_ = ast.unparse(lp_.iter)
+                if it_ not in ("keys", "reversed(keys)"):
+                    raise GenError(name + ": loop over " + it_)
+                c_ = lp_.body[0]
+                if not (isinstance(c_, ast.Expr) and isinstance(c_.value, ast.Call) and ast.unparse(c_.value.func) == "self.keyEvent"
+                        and len(c_.value.args) == 1 and ast.unparse(c_.value.args[0]) == lp_.target.id and len(c_.value.keywords) == 1
+                        and c_.value.keywords[0].arg == "down" and isinstance(c_.value.keywords[0].value, ast.Constant)
+                        and isinstance(c_.value.keywords[0].value.value, bool)):
+                    raise GenError(name + ": loop body is not self.keyEvent(k, down=<constant>)")
+                passes.append((it_ != "keys", c_.value.keywords[0].value.value))
+            rows.append((name, passes))
+        out.append("(* per key operation: the passes over the decoded keys as (reversed?, down-flag) *)")
+        for name, passes in rows:
+            out.append(f"Definition gen_{name}_passes : list (bool * bool) := ["
+                       + "; ".join(f"({str(r_).lower()}, {str(d_).lower()})" for r_, d_ in passes) + "].\n")
 
-    # ---- the exit status of vncdo (command.VNCDoCLIFactory): which status each reactor event leaves behind
-    cls = next((n for n in command.body if isinstance(n, ast.ClassDef) and n.name == "VNCDoCLIFactory"), None)
-    if cls is None:
-        raise GenError("VNCDoCLIFactory not found")
-    meths = {m_.name: m_ for m_ in cls.body if isinstance(m_, ast.FunctionDef)}
-    for need_ in ("clientConnectionLost", "clientConnectionFailed", "error", "done"):
-        if need_ not in meths:
-            raise GenError("VNCDoCLIFactory." + need_ + " not found")
 
-    def status_cond(e):
-        if isinstance(e, ast.BoolOp) and isinstance(e.op, ast.And):
-            return "(" + " && ".join(status_cond(v) for v in e.values) + ")"
-        t = ast.unparse(e)
-        if t == "reason.type == ConnectionDone":
-            return "clean"
-        if t == "self.completed":
-            return "completed"
-        raise GenError("unsupported condition in the exit-status code: " + t)
+    with S("requests") as out:
+        # ---- framebufferUpdateRequest (RFBClient): defaults of width / height, order of the packed fields
+        m = method(rfb, "RFBClient", "framebufferUpdateRequest")
+        if [a_.arg for a_ in m.args.args] != ["self", "x", "y", "width", "height", "incremental"]:
+            raise GenError("framebufferUpdateRequest: parameters changed")
+        dflt = [ast.unparse(d_) for d_ in m.args.defaults]
+        if dflt != ["0", "0", "None", "None", "False"]:
+            raise GenError("framebufferUpdateRequest: defaults changed: " + str(dflt))
+        body = [s_ for s_ in m.body if not (isinstance(s_, ast.Expr) and isinstance(s_.value, ast.Constant))]
+        env = {"x": "x", "y": "y", "incremental": "incremental", "self.width": "cw", "self.height": "ch"}
+        opt = {"width": "width", "height": "height"}
+        for st in body[:-1]:
+            if not (isinstance(st, ast.If) and isinstance(st.test, ast.Compare) and len(st.test.ops) == 1 and isinstance(st.test.ops[0], ast.Is)
+                    and isinstance(st.test.left, ast.Name) and st.test.left.id in opt and ast.unparse(st.test.comparators[0]) == "None"
+                    and len(st.body) == 1 and not st.orelse and isinstance(st.body[0], ast.Assign)
+                    and ast.unparse(st.body[0].targets[0]) == st.test.left.id):
+                raise GenError("framebufferUpdateRequest: expected `if <arg> is None: <arg> = ...` statements")
+            nm = st.test.left.id
+            env[nm] = f"(match {opt.pop(nm)} with Some v => v | None => {zexpr(st.body[0].value, env)} end)"
+        if opt:
+            raise GenError("framebufferUpdateRequest: no default computed for " + ", ".join(opt))
+        wr = body[-1]
+        if not (isinstance(wr, ast.Expr) and isinstance(wr.value, ast.Call) and ast.unparse(wr.value.func) == "self.transport.write"
+                and len(wr.value.args) == 1 and isinstance(wr.value.args[0], ast.Call) and ast.unparse(wr.value.args[0].func) == "pack"):
+            raise GenError("framebufferUpdateRequest: expected self.transport.write(pack(...)) last")
+        pk = wr.value.args[0].args
+        if not (isinstance(pk[0], ast.Constant) and pk[0].value == "!BBHHHH" and len(pk) == 7):
+            raise GenError("framebufferUpdateRequest: the message is no longer pack('!BBHHHH', 3, incremental, x, y, width, height)")
+        flds = [zexpr(a_, env) for a_ in pk[1:]]
+        out.append("Definition gen_fbur_fields (cw ch x y : Z) (width height : option Z) (incremental : Z) : list Z :=\n  ["
+                   + "; ".join(flds) + "].\n")
 
-    def status_of(name, depth=0):
-        if depth > 4:
-            raise GenError("exit-status code recurses")
-        body = [s_ for s_ in meths[name].body if not is_log_call(s_) and not (isinstance(s_, ast.Expr) and isinstance(s_.value, ast.Constant))]
 
-        def stmts(b):
-            if len(b) != 1:
-                raise GenError(f"VNCDoCLIFactory.{name}: expected one decision, found {len(b)} statements")
-            st = b[0]
-            if isinstance(st, ast.If):
-                return f"(if {status_cond(st.test)} then {stmts(st.body)} else {stmts(st.orelse)})"
-            if isinstance(st, ast.Expr) and isinstance(st.value, ast.Call) and isinstance(st.value.func, ast.Attribute) \
-                    and isinstance(st.value.func.value, ast.Name) and st.value.func.value.id == "self":
-                callee = st.value.func.attr
-                if callee == "done":
-                    if len(st.value.args) != 1 or not (isinstance(st.value.args[0], ast.Constant) and isinstance(st.value.args[0].value, int)):
-                        raise GenError(f"VNCDoCLIFactory.{name}: done() is not called with an integer constant")
-                    return str(st.value.args[0].value)
-                if callee in meths:
-                    return status_of(callee, depth + 1)
-            raise GenError(f"VNCDoCLIFactory.{name}: unsupported statement {ast.unparse(st)[:60]}")
-        return stmts(body)
-    out.append("Definition gen_status_lost (clean completed : bool) : Z :=\n  " + status_of("clientConnectionLost") + ".\n")
-    out.append("Definition gen_status_failed : Z := " + status_of("clientConnectionFailed") + ".\n")
-    out.append("Definition gen_status_error : Z := " + status_of("error") + ".\n")
-    dn = [ast.unparse(s_) for s_ in meths["done"].body if not (isinstance(s_, ast.Expr) and isinstance(s_.value, ast.Constant))]
-    if len(dn) != 2 or dn[0] != "reactor.exit_status = exit_code" or not dn[1].startswith("reactor.callLater(") or not dn[1].endswith(", reactor.stop)"):
-        raise GenError("VNCDoCLIFactory.done is no longer `exit_status = exit_code; callLater(<delay>, reactor.stop)`: " + "; ".join(dn))
-    fn = function(command, "build_tool")
-    init = [n_ for n_ in ast.walk(fn) if isinstance(n_, ast.Assign) and ast.unparse(n_.targets[0]) == "reactor.exit_status"]
-    if len(init) != 1 or not (isinstance(init[0].value, ast.Constant) and isinstance(init[0].value.value, int)):
-        raise GenError("build_tool no longer sets reactor.exit_status to a constant")
-    out.append(f"Definition gen_status_initial : Z := {init[0].value.value}.\n")
-    cc = next((n_ for n_ in ast.walk(fn) if isinstance(n_, ast.FunctionDef) and n_.name == "close_connection"), None)
-    if cc is None or [ast.unparse(s_) for s_ in cc.body] != ["factory.completed = True", "client.transport.loseConnection()"]:
-        raise GenError("build_tool.close_connection is no longer `factory.completed = True; client.transport.loseConnection()`")
+    with S("auth") as out:
+        # ---- the VNC-authentication key (rfb._vnc_des)
+        m = function(rfb, "_vnc_des")
+        stm = [s for s in m.body if not (isinstance(s, ast.Expr) and isinstance(s.value, ast.Constant))]
+        if len(stm) != 4 or ast.unparse(stm[3]) != "return key":
+            raise GenError("_vnc_des: expected pad, encode, reverse, return")
+        pad = stm[0]
+        if not (isinstance(pad, ast.Assign) and isinstance(pad.value, ast.JoinedStr) and len(pad.value.values) == 1
+                and isinstance(pad.value.values[0], ast.FormattedValue) and ast.unparse(pad.value.values[0].value) == "password"
+                and pad.value.values[0].conversion == -1 and isinstance(pad.value.values[0].format_spec, ast.JoinedStr)
+                and len(pad.value.values[0].format_spec.values) == 1 and isinstance(pad.value.values[0].format_spec.values[0], ast.Constant)):
+            raise GenError("_vnc_des: the padding is no longer one format specification applied to the password")
+        spec = pad.value.values[0].format_spec.values[0].value
+        # [[fill]align][width][.precision]
+        if len(spec) < 4 or spec[1] != "<" or "." not in spec:
+            raise GenError(f"_vnc_des: unsupported format specification {spec!r}")
+        width, prec = spec[2:].split(".")
+        out.append(f"Definition gen_key_fill : Z := {ord(spec[0])}.\nDefinition gen_key_width : nat := {int(width)}%nat.\n"
+                   f"Definition gen_key_precision : nat := {int(prec)}%nat.\n")
+        enc = stm[1]
+        if not (isinstance(enc, ast.Assign) and isinstance(enc.value, ast.Call) and ast.unparse(enc.value.func) == "pw.encode"
+                and len(enc.value.args) == 1 and isinstance(enc.value.args[0], ast.Constant) and str(enc.value.args[0].value).upper() == "ASCII"):
+            raise GenError("_vnc_des: the key is no longer the ASCII encoding of the padded password")
+        rev = stm[2]
+        if not (isinstance(rev, ast.Assign) and isinstance(rev.value, ast.Call) and ast.unparse(rev.value.func) == "bytes"
+                and len(rev.value.args) == 1 and isinstance(rev.value.args[0], ast.GeneratorExp)):
+            raise GenError("_vnc_des: expected bytes(<expression> for k in key)")
+        g = rev.value.args[0]
+        if len(g.generators) != 1 or g.generators[0].ifs or ast.unparse(g.generators[0].iter) != "key" or not isinstance(g.generators[0].target, ast.Name):
+            raise GenError("_vnc_des: expected one `for k in key`")
+        out.append(definition("gen_key_byte", ["k"], "Z", zexpr(g.elt, {g.generators[0].target.id: "k"})))
 
-    new = "\n".join(out)
-    os.makedirs(os.path.dirname(OUT), exist_ok=True)
-    if not os.path.exists(OUT) or open(OUT).read() != new:
-        open(OUT, "w").write(new)
+
+    with S("time") as out:
+        # ---- time arithmetic of the command line (command.build_command_list, command.vncdo), over Q
+        fn = function(command, "build_command_list")
+        stores = [n for n in ast.walk(fn) if isinstance(n, (ast.Assign, ast.AugAssign, ast.AnnAssign, ast.NamedExpr))
+                  for t in (n.targets if isinstance(n, ast.Assign) else [n.target]) for nm in ast.walk(t)
+                  if isinstance(nm, ast.Name) and nm.id in ("warp", "delay")]
+        if len(stores) != 1 or ast.unparse(stores[0]) != "delay = float(delay) / 1000.0":
+            raise GenError("build_command_list: warp / delay are reassigned: " + "; ".join(ast.unparse(s) for s in stores))
+        out.append("Definition gen_delay_seconds (delay : Q) : Q :=\n  " + qexpr(stores[0].value, {"delay": "delay"}) + "%Q.\n")
+        durs = [n for n in ast.walk(fn) if isinstance(n, ast.Assign) and len(n.targets) == 1 and ast.unparse(n.targets[0]) == "duration"]
+        if len(durs) != 1:
+            raise GenError("build_command_list: expected one assignment to duration")
+        uses = [n for n in ast.walk(fn) if isinstance(n, ast.Call) and ast.unparse(n.func) == "factory.deferred.addCallback"
+                and n.args and ast.unparse(n.args[0]) == "client.pause"]
+        shapes = sorted(set(ast.unparse(n.args[1]) for n in uses if len(n.args) == 2))
+        if shapes != ["delay", "duration"] or any(len(n.args) != 2 for n in uses):
+            raise GenError(f"build_command_list: client.pause is registered with {shapes}")
+        out.append("Definition gen_pause_duration (arg warp : Q) : Q :=\n  " + qexpr(durs[0].value, {"<arg>": "arg", "warp": "warp"}) + "%Q.\n")
+
+    with S("exit") as out:
+        fn = function(command, "vncdo")
+        later = [n for n in ast.walk(fn) if isinstance(n, ast.Call) and ast.unparse(n.func) == "reactor.callLater"]
+        if len(later) != 1 or len(later[0].args) != 3 or ast.unparse(later[0].args[1]) != "factory.error":
+            raise GenError("vncdo: expected one reactor.callLater(<delay>, factory.error, failure)")
+        out.append("Definition gen_timeout_delay (timeout warp : Q) : Q :=\n  "
+                   + qexpr(later[0].args[0], {"options.timeout": "timeout", "options.warp": "warp"}) + "%Q.\n")
+
+
+    with S("requests") as out:
+        # ---- the boxes handed on by the region operations (VNCDoToolClient.captureRegion, _expectFramebuffer, expectScreen)
+        m = method(client, "VNCDoToolClient", "captureRegion")
+        body = [s_ for s_ in m.body if not is_log_call(s_) and not (isinstance(s_, ast.Expr) and isinstance(s_.value, ast.Constant))]
+        if not (len(body) == 1 and isinstance(body[0], ast.Return) and isinstance(body[0].value, ast.Call)
+                and ast.unparse(body[0].value.func) == "self._capture" and len(body[0].value.args) == 6
+                and [ast.unparse(a_) for a_ in body[0].value.args[:2]] == ["fp", "incremental"] and not body[0].value.keywords):
+            raise GenError("captureRegion is no longer `return self._capture(fp, incremental, <box>)`")
+        bx = [zexpr(a_, ident(["x", "y", "w", "h"])) for a_ in body[0].value.args[2:]]
+        out.append(definition("gen_capture_region_box", ["x", "y", "w", "h"], "Z * Z * Z * Z", f"({bx[0]}, {bx[1]}, {bx[2]}, {bx[3]})"))
+
+    with S("expectbox") as out:
+        m = method(client, "VNCDoToolClient", "_expectFramebuffer")
+        body = [s_ for s_ in m.body if not is_log_call(s_) and not (isinstance(s_, ast.Expr) and isinstance(s_.value, ast.Constant))]
+        if [ast.unparse(s_) for s_ in body[:3]] != ["image = Image.open(filename)", "w, h = image.size", "self.expected = image.histogram()"]:
+            raise GenError("_expectFramebuffer no longer opens the file, takes its size and its histogram: " + "; ".join(ast.unparse(s_) for s_ in body[:3]))
+        r_ = body[3] if len(body) == 4 else None
+        if not (isinstance(r_, ast.Return) and isinstance(r_.value, ast.Call) and ast.unparse(r_.value.func) == "self._expectCompare"
+                and len(r_.value.args) == 3 and ast.unparse(r_.value.args[0]) == "None" and isinstance(r_.value.args[1], ast.Tuple)
+                and len(r_.value.args[1].elts) == 4 and ast.unparse(r_.value.args[2]) == "maxrms"):
+            raise GenError("_expectFramebuffer no longer ends with `return self._expectCompare(None, <box>, maxrms)`")
+        bx = [zexpr(a_, ident(["x", "y", "w", "h"])) for a_ in r_.value.args[1].elts]
+        out.append(definition("gen_expect_box", ["x", "y", "w", "h"], "Z * Z * Z * Z", f"({bx[0]}, {bx[1]}, {bx[2]}, {bx[3]})"))
+        for nm, want in (("expectScreen", "return self._expectFramebuffer(filename, 0, 0, maxrms)"), ("expectRegion", "return self._expectFramebuffer(filename, x, y, maxrms)")):
+            m = method(client, "VNCDoToolClient", nm)
+            body = [ast.unparse(s_) for s_ in m.body if not is_log_call(s_) and not (isinstance(s_, ast.Expr) and isinstance(s_.value, ast.Constant))]
+            if body != [want]:
+                raise GenError(f"{nm} is no longer `{want}`")
+
+
+    with S("encodings") as out:
+        # ---- the encodings the client advertises (VNCDoToolClient.vncConnectionMade): a list built by conditional appends
+        m = method(client, "VNCDoToolClient", "vncConnectionMade")
+        body = [s_ for s_ in m.body if not is_log_call(s_) and not (isinstance(s_, ast.Expr) and isinstance(s_.value, ast.Constant))]
+        flags = {"self.factory.pseudocursor": "pseudocursor", "self.factory.nocursor": "nocursor", "self.factory.pseudodesktop": "pseudodesktop",
+                 "self.factory.last_rect": "last_rect", "self.factory.qemu_extended_key": "qemu"}
+        encname = {"rfb.Encoding.PSEUDO_CURSOR": "ENC_PSEUDO_CURSOR", "rfb.Encoding.PSEUDO_DESKTOP_SIZE": "ENC_PSEUDO_DESKTOP_SIZE",
+                   "rfb.Encoding.PSEUDO_LAST_RECT": "ENC_PSEUDO_LAST_RECT",
+                   "rfb.Encoding.PSEUDO_QEMU_EXTENDED_KEY_EVENT": "ENC_PSEUDO_QEMU_EXTENDED_KEY_EVENT"}
+
+        def fcond(e):
+            if isinstance(e, ast.BoolOp):
+                return "(" + (" || " if isinstance(e.op, ast.Or) else " && ").join(fcond(v) for v in e.values) + ")"
+            if isinstance(e, ast.UnaryOp) and isinstance(e.op, ast.Not):
+                return f"(negb {fcond(e.operand)})"
+            if ast.unparse(e) in flags:
+                return flags[ast.unparse(e)]
+            raise GenError("vncConnectionMade: unsupported condition " + ast.unparse(e))
+        if ast.unparse(body[0]) != "self.setImageMode()":
+            raise GenError("vncConnectionMade no longer begins with self.setImageMode()")
+        if ast.unparse(body[1]) != "encodings = [self.encoding]":
+            raise GenError("vncConnectionMade: the list no longer starts as [self.encoding]")
+        term = "[encoding]"
+        k_ = 2
+        while k_ < len(body) and isinstance(body[k_], ast.If):
+            st = body[k_]
+            if not (len(st.body) == 1 and not st.orelse and isinstance(st.body[0], ast.Expr) and isinstance(st.body[0].value, ast.Call)
+                    and ast.unparse(st.body[0].value.func) == "encodings.append" and ast.unparse(st.body[0].value.args[0]) in encname):
+                raise GenError("vncConnectionMade: unsupported step " + ast.unparse(st)[:70])
+            term = f"({term} ++ (if {fcond(st.test)} then [{encname[ast.unparse(st.body[0].value.args[0])]}] else []))"
+            k_ += 1
+        if [ast.unparse(s_) for s_ in body[k_:]] != ["self.setEncodings(encodings)", "self.factory.clientConnectionMade(self)"]:
+            raise GenError("vncConnectionMade no longer ends with setEncodings(encodings); clientConnectionMade(self): "
+                           + "; ".join(ast.unparse(s_) for s_ in body[k_:]))
+        out.append("From VD Require Import Gen.Tables.\n")
+        out.append("Definition gen_encodings (encoding : Z) (pseudocursor nocursor pseudodesktop last_rect qemu : bool) : list Z :=\n  " + term + ".\n")
+
+
+    with S("exit") as out:
+        # ---- the exit status of vncdo (command.VNCDoCLIFactory): which status each reactor event leaves behind
+        cls = next((n for n in command.body if isinstance(n, ast.ClassDef) and n.name == "VNCDoCLIFactory"), None)
+        if cls is None:
+            raise GenError("VNCDoCLIFactory not found")
+        meths = {m_.name: m_ for m_ in cls.body if isinstance(m_, ast.FunctionDef)}
+        for need_ in ("clientConnectionLost", "clientConnectionFailed", "error", "done"):
+            if need_ not in meths:
+                raise GenError("VNCDoCLIFactory." + need_ + " not found")
+
+        def status_cond(e):
+            if isinstance(e, ast.BoolOp) and isinstance(e.op, ast.And):
+                return "(" + " && ".join(status_cond(v) for v in e.values) + ")"
+            t = ast.unparse(e)
+            if t == "reason.type == ConnectionDone":
+                return "clean"
+            if t == "self.completed":
+                return "completed"
+            raise GenError("unsupported condition in the exit-status code: " + t)
+
+        def status_of(name, depth=0):
+            if depth > 4:
+                raise GenError("exit-status code recurses")
+            body = [s_ for s_ in meths[name].body if not is_log_call(s_) and not (isinstance(s_, ast.Expr) and isinstance(s_.value, ast.Constant))]
+
+            def stmts(b):
+                if len(b) != 1:
+                    raise GenError(f"VNCDoCLIFactory.{name}: expected one decision, found {len(b)} statements")
+                st = b[0]
+                if isinstance(st, ast.If):
+                    return f"(if {status_cond(st.test)} then {stmts(st.body)} else {stmts(st.orelse)})"
+                if isinstance(st, ast.Expr) and isinstance(st.value, ast.Call) and isinstance(st.value.func, ast.Attribute) \
+                        and isinstance(st.value.func.value, ast.Name) and st.value.func.value.id == "self":
+                    callee = st.value.func.attr
+                    if callee == "done":
+                        if len(st.value.args) != 1 or not (isinstance(st.value.args[0], ast.Constant) and isinstance(st.value.args[0].value, int)):
+                            raise GenError(f"VNCDoCLIFactory.{name}: done() is not called with an integer constant")
+                        return str(st.value.args[0].value)
+                    if callee in meths:
+                        return status_of(callee, depth + 1)
+                raise GenError(f"VNCDoCLIFactory.{name}: unsupported statement {ast.unparse(st)[:60]}")
+            return stmts(body)
+        out.append("Definition gen_status_lost (clean completed : bool) : Z :=\n  " + status_of("clientConnectionLost") + ".\n")
+        out.append("Definition gen_status_failed : Z := " + status_of("clientConnectionFailed") + ".\n")
+        out.append("Definition gen_status_error : Z := " + status_of("error") + ".\n")
+        dn = [ast.unparse(s_) for s_ in meths["done"].body if not (isinstance(s_, ast.Expr) and isinstance(s_.value, ast.Constant))]
+        if len(dn) != 2 or dn[0] != "reactor.exit_status = exit_code" or not dn[1].startswith("reactor.callLater(") or not dn[1].endswith(", reactor.stop)"):
+            raise GenError("VNCDoCLIFactory.done is no longer `exit_status = exit_code; callLater(<delay>, reactor.stop)`: " + "; ".join(dn))
+        fn = function(command, "build_tool")
+        init = [n_ for n_ in ast.walk(fn) if isinstance(n_, ast.Assign) and ast.unparse(n_.targets[0]) == "reactor.exit_status"]
+        if len(init) != 1 or not (isinstance(init[0].value, ast.Constant) and isinstance(init[0].value.value, int)):
+            raise GenError("build_tool no longer sets reactor.exit_status to a constant")
+        out.append(f"Definition gen_status_initial : Z := {init[0].value.value}.\n")
+        cc = next((n_ for n_ in ast.walk(fn) if isinstance(n_, ast.FunctionDef) and n_.name == "close_connection"), None)
+        if cc is None or [ast.unparse(s_) for s_ in cc.body] != ["factory.completed = True", "client.transport.loseConnection()"]:
+            raise GenError("build_tool.close_connection is no longer `factory.completed = True; client.transport.loseConnection()`")
+
+
+    return S.finish()
 
 
 if __name__ == "__main__":
-    try:
-        main()
-    except GenError as e:
-        print("gen/exprs.py: " + str(e), file=sys.stderr)
-        sys.exit(2)
+    sys.exit(main())
